@@ -63,27 +63,40 @@ def _product_factors(e):
     return out
 
 
+def _is_exact_reading(m, name="_exact") -> bool:
+    """`_exact(x)`: ints and Fractions as they are, everything else through str() - the number the caller wrote"""
+    f = m.funcs.get(name)
+    if f is None:
+        return False
+    rets = [n for n in own_nodes(f.node) if isinstance(n, ast.Return)]
+    return len(rets) == 1 and ast.unparse(rets[0].value) == "Fraction(x) if isinstance(x, (int, Fraction)) else Fraction(str(x))"
+
+
 def _recheck_allowance(ctx: Ctx, k, site):
-    """the slack of the weight re-check is the float error of the sum it checks: 0 for unscaled (integral) data, else
-    capacity * machine epsilon * at most the number of summands.  A fixed 1e-9 accepted [10.0000000005] for capacity
-    10 (ledger row 62)."""
-    al = [n for n in own_nodes(k.node) if isinstance(n, (ast.Assign, ast.AugAssign)) and ast.unparse(n.targets[0] if isinstance(n, ast.Assign) else n.target) == "allowance"]
-    ok = len(al) == 1 and isinstance(al[0], ast.Assign) and isinstance(al[0].value, ast.IfExp)
-    if ok:
-        v_ = al[0].value
-        zero_arm, scaled, test = v_.body, v_.orelse, ast.unparse(v_.test)
-        if test in ("scale != 1.0", "1.0 != scale"):
-            zero_arm, scaled, test = scaled, zero_arm, "scale == 1.0"
-        ok = test in ("scale == 1.0", "1.0 == scale") and ast.unparse(zero_arm) in ("0.0", "0") and isinstance(scaled, ast.BinOp) and isinstance(scaled.op, ast.Mult)
-        if ok:
-            factors = _product_factors(scaled)
-            txt_ = sorted(ast.unparse(e_) for e_ in factors if not isinstance(e_, ast.Constant))
-            lits_ = [e_.value for e_ in factors if isinstance(e_, ast.Constant) and isinstance(e_.value, (int, float))]
-            tiny = ("sys.float_info.epsilon" in txt_) != (len(lits_) == 1 and 0 < lits_[0] <= 1e-15)
-            rest_ = [t_ for t_ in txt_ if t_ != "sys.float_info.epsilon"]
-            sel = _sel_name(k)
-            ok = tiny and rest_ in (["capacity"], sorted(["capacity", f"len({sel})"]), sorted(["capacity", "n"]), sorted(["capacity", "len(weights)"]))
-    ctx.ob("C16-O1", "R14 GATE", k, "the slack of the weight re-check is 0 for unscaled data and otherwise the float error of the sum: capacity times machine epsilon (or a literal of at most 1e-15), at most times the number of items", ok, "a wider slack lets a selection through whose weight exceeds the capacity (a fixed 1e-9 accepted weight 10.0000000005 for capacity 10 and called it OPTIMAL)", node=al[0] if al else site)
+    """The weight re-check has no slack at all: both sides are exact rationals - each weight and the capacity read as
+    the decimal the caller wrote (`_exact`).  Every float slack tried before let an overweight selection through
+    somewhere (1e-9: ledger row 62; n * eps * capacity: row 68) or sent a selection that fits to the fallback."""
+    m = ctx.repo.module("knapsack")
+    ctx.ob("C16-O1", "R14 GATE", k, "`_exact` reads a number exactly as written (int / Fraction unchanged, a float through its shortest repr)", _is_exact_reading(m), "any other reading (float(x), Fraction(x) of a float) compares binary expansions: 0.1 + 0.2 then exceeds 0.3", node=(m.funcs["_exact"].node if "_exact" in m.funcs else site))
+    slack = [n for n in own_nodes(k.node) if isinstance(n, ast.Compare) and "total_weight" in names_in(n) and any(isinstance(x, ast.BinOp) for x in ast.walk(n))]
+    floats = [n for n in own_nodes(k.node) if isinstance(n, ast.Compare) and "total_weight" in names_in(n) and "_exact" not in {ast.unparse(c.func) for c in ast.walk(n) if isinstance(c, ast.Call)}]
+    ctx.ob("C16-O1", "R14 GATE", k, "the weight re-check compares exact values without any slack", not slack and not floats, f"`{ast.unparse((slack or floats)[0])[:60]}`: an allowance added to the capacity, or the capacity taken as a float, lets a selection through that is over the capacity (or turns one away that fits)" if (slack or floats) else "", node=(slack or floats or [site])[0])
+    # OPTIMAL is claimed only when the DP ran on exact integers: the flag is computed from the scaled data, the rounded
+    # integers are used exactly when it holds
+    ex = [n for n in own_nodes(k.node) if isinstance(n, ast.Assign) and ast.unparse(n.targets[0]) == "exact"]
+    ok = len(ex) == 1 and ast.unparse(ex[0].value) == "all((abs(x - round(x)) <= 1e-09 * max(1.0, abs(x)) for x in scaled))"
+    sc = [n for n in own_nodes(k.node) if isinstance(n, ast.Assign) and ast.unparse(n.targets[0]) == "scaled"]
+    ok = ok and len(sc) == 1 and ast.unparse(sc[0].value) == "[w * scale for w in weights] + [capacity * scale]"
+    ctx.ob("C16-O1", "R14 GATE", k, "`exact` holds when every scaled weight and the scaled capacity is a whole number up to float noise", ok, "", node=ex[0] if ex else site)
+    cfg = cfg_of(k.node)
+    gv = GuardView(cfg)
+    rounded = [n for n in own_nodes(k.node) if isinstance(n, ast.Assign) and ast.unparse(n.targets[0]) in ("int_weights", "int_capacity") and "round(" in ast.unparse(n.value)]
+    trunc = [n for n in own_nodes(k.node) if isinstance(n, ast.Assign) and ast.unparse(n.targets[0]) == "int_weights" and "int(" in ast.unparse(n.value)]
+    okr = len(rounded) == 2 and all("T:exact" in gv.guard_atoms(cfg.node_of(n), stable_only=False) for n in rounded) and len(trunc) == 1 and "F:exact" in gv.guard_atoms(cfg.node_of(trunc[0]), stable_only=False)
+    ctx.ob("C16-O1", "R14 GATE", k, "exact data is rounded to its whole numbers (weights and capacity alike); only inexact data is cut down to the grid", okr, "truncating 2.01 * 1000 = 2009.9999999999998 to 2009 shrinks the capacity by a unit: a set that fills it exactly is rejected and a worse one labelled OPTIMAL", node=(rounded or trunc or [site])[0])
+    pub = [s_ for s_ in result_sites(k) if "OPTIMAL" in s_.statuses and not (isinstance(s_.arg("solution"), ast.Tuple) and not s_.arg("solution").elts)]
+    okp = bool(pub) and all(ast.unparse(s_.arg("status")) == "Status.OPTIMAL if exact else Status.FEASIBLE" for s_ in pub)
+    ctx.ob("C16-O1", "R1 STATUS-GUARD", k, "the DP answer is labelled OPTIMAL exactly when the data was exact, FEASIBLE otherwise", okp, f"{[ast.unparse(s_.arg('status')) for s_ in pub]}: on data cut down to the grid the DP solves a stricter problem than the caller's", node=pub[0].call if pub else site)
 
 
 def run(ctx: Ctx):
@@ -101,11 +114,11 @@ def run(ctx: Ctx):
             ctx.ob("C16-O1", "R14 GATE", k, f"Result#{i}: an OPTIMAL empty selection is published only for an empty item list", ok, f"guards {sorted(at)}: the items were never examined (zero-weight items would fit)", node=s.call)
         elif "OPTIMAL" in s.statuses:
             n_dp += 1
-            gate = atom_of("total_weight <= capacity + allowance")
+            gate = atom_of("total_weight <= _exact(capacity)")
             ok = gate in at
             ctx.step(_recheck_allowance, k, s.call)
             tw = [n for n in own_nodes(k.node) if isinstance(n, ast.Assign) and ast.unparse(n.targets[0]) == "total_weight"]
-            ok2 = len(tw) == 1 and ast.unparse(tw[0].value) == f"sum((weights[i] for i in {_sel_name(k)}))"
+            ok2 = len(tw) == 1 and ast.unparse(tw[0].value) == f"sum((_exact(weights[i]) for i in {_sel_name(k)}))"
             ctx.ob("C16-O1", "R14 GATE", k, f"Result#{i}: DP OPTIMAL is published only after the weight re-check passed", ok, f"guards {sorted(at)}", node=s.call)
             ctx.ob("C16-O1", "R14 GATE", k, "the re-check sums the user's unscaled weights over the returned selection", ok2, ast.unparse(tw[0]) if tw else "", node=s.call)
             obj = s.arg("objective")
@@ -123,7 +136,7 @@ def run(ctx: Ctx):
         if isinstance(n, ast.Call) and ast.unparse(n.func) == "selected.append":
             at = fgv.guard_atoms(fcfg.stmt_node_containing(n))
             blk = [ast.unparse(x) for x in _enclosing_block(fb.node, fcfg.stmt_node_containing(n).ast)]
-            ctx.ob("C16-O1", "R14 GATE", fb, "fallback takes an item only if it fits the remaining capacity, and lowers it by the item's weight", atom_of("weights[i] <= remaining") in at and "remaining -= weights[i]" in blk, "", node=n)
+            ctx.ob("C16-O1", "R14 GATE", fb, "fallback takes an item only if it fits the remaining capacity, and lowers it by the item's weight", atom_of("_exact(weights[i]) <= remaining") in at and "remaining -= _exact(weights[i])" in blk and any(ast.unparse(x) == "remaining = _exact(capacity)" for x in own_nodes(fb.node)), "", node=n)
     t = ast.unparse(fb.node)
     ctx.ob("C16-O2", "R5 PAIRING", fb, "fallback objective = sum of the user's values over the returned indices (each index visited once)", "objective = sum((values[i] for i in selected))" in t and "indices = list(range(n))" in t and "for i in indices" in t, "", node=fb.node)
     # hand-over to fallback forwards the user's arguments
@@ -193,38 +206,22 @@ def run(ctx: Ctx):
         at = gv.guard_atoms(cfg.stmt_node_containing(o))
         if atom_of("best_bin == -1") in at:
             ctx.ob("C16-O3", "R16 PAIRED-EFFECTS", b, "a new bin's index is len(bins) taken before the append", i > 0 and ast.unparse(blk[i - 1]) == "best_bin = len(bins)", "", node=o)
-        ctx.ob("C16-O3", "R16 PAIRED-EFFECTS", b, "a new bin starts with the full capacity and no items", ast.unparse(o.args[0]) == "(bin_capacity, [])", "", node=o)
+        ctx.ob("C16-O3", "R16 PAIRED-EFFECTS", b, "a new bin starts with the full capacity and no items", ast.unparse(o.args[0]) == "(capacity, [])", "", node=o)
     fits = [n for n in own_nodes(b.node) if isinstance(n, ast.Assign) and ast.unparse(n.targets[0]) == "best_bin" and ast.unparse(n.value) == "b"]
     ctx.floor("existing-bin choices", len(fits), 2)
     for f_ in fits:
         at = gv.guard_atoms(cfg.node_of(f_), stable_only=False)
-        ctx.ob("C16-O3", "R14 GATE", b, "an existing bin is chosen only if the item fits its remaining capacity (up to the rounding allowance)", atom_of("size <= remaining + tol") in at or atom_of("size <= remaining") in at, f"{sorted(at)[:6]}", node=f_)
-    # the rounding allowance: zero for integral data, otherwise a constant no larger than 1e-9 times the capacity, written once
-    tols = [n for n in own_nodes(b.node) if isinstance(n, (ast.Assign, ast.AugAssign)) and ast.unparse(n.targets[0] if isinstance(n, ast.Assign) else n.target) == "tol"]
-    okt = len(tols) == 1 and isinstance(tols[0], ast.Assign) and isinstance(tols[0].value, ast.IfExp)
-    if okt:
-        v_ = tols[0].value
-        zero_arm, scaled = (v_.body, v_.orelse)
-        okt = ast.unparse(zero_arm) in ("0.0", "0") and isinstance(scaled, ast.BinOp) and isinstance(scaled.op, ast.Mult)
-        if okt:
-            # a product of: the capacity, a factor at the scale of one rounding (machine epsilon or a literal <= 1e-15),
-            # and at most the number of items (each subtraction rounds once)
-            factors = []
-            stack_ = [scaled]
-            while stack_:
-                e_ = stack_.pop()
-                if isinstance(e_, ast.BinOp) and isinstance(e_.op, ast.Mult):
-                    stack_ += [e_.left, e_.right]
-                else:
-                    factors.append(e_)
-            txt_ = sorted(ast.unparse(e_) for e_ in factors if not isinstance(e_, ast.Constant))
-            lits_ = [e_.value for e_ in factors if isinstance(e_, ast.Constant) and isinstance(e_.value, (int, float))]
-            tiny = ("sys.float_info.epsilon" in txt_) != (len(lits_) == 1 and 0 < lits_[0] <= 1e-15)
-            rest_ = [t_ for t_ in txt_ if t_ != "sys.float_info.epsilon"]
-            okt = tiny and rest_ in (["bin_capacity"], ["bin_capacity", "n"], ["bin_capacity", "len(item_sizes)"]) and ast.unparse(v_.test) == "integral"
-    integ = [n for n in own_nodes(b.node) if isinstance(n, ast.Assign) and ast.unparse(n.targets[0]) == "integral"]
-    okt = okt and len(integ) == 1 and ast.unparse(integ[0].value) == "float(bin_capacity).is_integer() and all((float(size).is_integer() for size in item_sizes))"
-    ctx.ob("C16-O3", "R14 GATE", b, "the rounding allowance of the fit tests is 0 for integral data and otherwise the float error of a remainder: capacity times machine epsilon (or a literal of at most 1e-15), at most times the number of items", okt, "a wider allowance lets an item into a bin it does not fit (1e-12 of the capacity put 0.5 and 0.5000000000001 into one bin of 1.0; applied to integers it overfills by whole units from 1e12 on)", node=tols[0] if tols else b.node)
+        ctx.ob("C16-O3", "R14 GATE", b, "an existing bin is chosen only if the item fits its remaining capacity", atom_of("size <= remaining") in at, f"{sorted(at)[:6]}", node=f_)
+    # loads are exact: sizes and capacity are read through `_exact`, remainders are exact rationals, and the fit tests
+    # have no slack (the slack tried before - 1e-12 of the capacity, then n ulps of it - overfilled a bin somewhere:
+    # ledger rows 57, 60, 67)
+    mb = ctx.repo.module("bin_pack")
+    cap_def = [n for n in own_nodes(b.node) if isinstance(n, ast.Assign) and ast.unparse(n.targets[0]) == "capacity"]
+    siz_def = [n for n in own_nodes(b.node) if isinstance(n, ast.Assign) and ast.unparse(n.targets[0]) == "sizes"]
+    size_use = [n for n in own_nodes(b.node) if isinstance(n, ast.Assign) and ast.unparse(n.targets[0]) == "size"]
+    okx = _is_exact_reading(mb) and len(cap_def) == 1 and ast.unparse(cap_def[0].value) == "_exact(bin_capacity)" and len(siz_def) == 1 and ast.unparse(siz_def[0].value) == "[_exact(size) for size in item_sizes]" and len(size_use) == 1 and ast.unparse(size_use[0].value) == "sizes[item_idx]"
+    slack_ = [n for n in own_nodes(b.node) if isinstance(n, ast.Compare) and "remaining" in names_in(n) and "size" in names_in(n) and any(isinstance(x, ast.BinOp) for x in ast.walk(n))]
+    ctx.ob("C16-O3", "R14 GATE", b, "sizes and capacity are read exactly as written (`_exact`), and the fit tests compare them without any slack", okx and not slack_, (f"`{ast.unparse(slack_[0])[:60]}`: " if slack_ else "") + "a float remainder carries residue (1.0 - 0.3 - 0.3 - 0.3 is below 0.1), and any allowance for it lets in an item that is larger than the room left (0.5, 0.25 and 0.2500000000000002 shared a bin of 1.0)", node=(slack_ or cap_def or [b.node])[0])
     # the variant flags are read from the *normalised* algorithm name (lower case, `_` -> `-`)
     tb_ = ast.unparse(b.node)
     norm = [n for n in own_nodes(b.node) if isinstance(n, ast.Assign) and ast.unparse(n.targets[0]) == "algo" and "algorithm" in names_in(n.value)]
@@ -233,9 +230,9 @@ def run(ctx: Ctx):
     ctx.ob("C16-O3", "R5 PAIRING", b, "`decreasing` is decided on the normalised algorithm name (every accepted spelling of a decreasing variant sorts the items)", okn, f"algo = {ast.unparse(norm[0].value) if norm else '?'}; decreasing = {ast.unparse(dec[0].value) if dec else '?'}: a spelling that is accepted but not recognised as decreasing silently runs the online heuristic and loses the 11/9 OPT + 6/9 guarantee", node=dec[0] if dec else b.node)
     from .sat_common import _need
 
-    ctx.step(_need, "C16-O3", "R16 PAIRED-EFFECTS", b, "an item that fits no open bin opens a new one, whose index it takes; every item is then recorded in its bin with the bin's remaining capacity lowered", ["if best_bin == -1:\n            best_bin = len(bins)\n            bins.append((bin_capacity, []))", "remaining, items = bins[best_bin]\n        items.append(item_idx)\n        bins[best_bin] = (remaining - size, items)\n        assignments[item_idx] = best_bin", "best_bin = -1"])
-    ctx.step(_need, "C16-O3", "R16 PAIRED-EFFECTS", b, "zero-size items go to bin 0, which is opened if there is none", ["if size == 0:\n            if not bins:\n                bins.append((bin_capacity, []))\n            bins[0][1].append(item_idx)\n            assignments[item_idx] = 0\n            continue"])
-    ctx.step(_need, "C16-O3", "R21 search discipline", b, "best fit keeps the fitting bin with the least room, first fit stops at the first fitting bin", ["if use_best_fit:\n            best_remaining = float('inf')\n            for b, (remaining, _) in enumerate(bins):\n                if size <= remaining + tol and remaining < best_remaining:\n                    best_remaining = remaining\n                    best_bin = b\n        else:\n            for b, (remaining, _) in enumerate(bins):\n                if size <= remaining + tol:\n                    best_bin = b\n                    break"])
+    ctx.step(_need, "C16-O3", "R16 PAIRED-EFFECTS", b, "an item that fits no open bin opens a new one, whose index it takes; every item is then recorded in its bin with the bin's remaining capacity lowered", ["if best_bin == -1:\n            best_bin = len(bins)\n            bins.append((capacity, []))", "remaining, items = bins[best_bin]\n        items.append(item_idx)\n        bins[best_bin] = (remaining - size, items)\n        assignments[item_idx] = best_bin", "best_bin = -1"])
+    ctx.step(_need, "C16-O3", "R16 PAIRED-EFFECTS", b, "zero-size items go to bin 0, which is opened if there is none", ["if size == 0:\n            if not bins:\n                bins.append((capacity, []))\n            bins[0][1].append(item_idx)\n            assignments[item_idx] = 0\n            continue"])
+    ctx.step(_need, "C16-O3", "R21 search discipline", b, "best fit keeps the fitting bin with the least room, first fit stops at the first fitting bin", ["if use_best_fit:\n            best_remaining = float('inf')\n            for b, (remaining, _) in enumerate(bins):\n                if size <= remaining and remaining < best_remaining:\n                    best_remaining = remaining\n                    best_bin = b\n        else:\n            for b, (remaining, _) in enumerate(bins):\n                if size <= remaining:\n                    best_bin = b\n                    break"])
     ctx.step(_need, "C16-O3", "R1 STATUS-GUARD", b, "inputs are validated: positive capacity, no item larger than a bin, no negative size, known algorithm name", ["check_positive(bin_capacity, name='bin_capacity')", "if size > bin_capacity:\n            raise ValueError", "if size < 0:\n            raise ValueError", "if algo not in ('first-fit', 'best-fit', 'ff', 'bf'):\n        raise ValueError", "if decreasing:\n        algo = algo.replace('-decreasing', '')", "use_best_fit = algo in ('best-fit', 'bf')"])
     # a new bin is opened only because no open bin has room: the scan over the open bins is skipped for no item
     scans = [n for n in ast.walk(lp) if isinstance(n, ast.For) and ast.unparse(n.iter) == "enumerate(bins)"]
@@ -287,12 +284,12 @@ def _v_zero_capacity_shortcut(tree):
 
 def _v_no_recheck(tree):
     g = M.find_func(tree, "solve_knapsack")
-    M.replace_stmt(g, lambda s: isinstance(s, ast.If) and M.src_has(s.test, "total_weight > capacity"), [])
+    M.replace_stmt(g, lambda s: isinstance(s, ast.If) and M.src_has(s.test, "total_weight > _exact(capacity)"), [])
 
 
 def _v_recheck_scaled(tree):
     g = M.find_func(tree, "solve_knapsack")
-    M.replace_expr(g, lambda e: M.src_is(e, "sum((weights[i] for i in selected))"), M.expr("sum((int_weights[i] / scale for i in selected))"))
+    M.replace_expr(g, lambda e: M.src_is(e, "sum((_exact(weights[i]) for i in selected))"), M.expr("sum((_exact(int_weights[i] / scale) for i in selected))"))
 
 
 def _v_objective_from_vals(tree):
@@ -317,12 +314,12 @@ def _v_bin_skip(tree):
 
 def _v_bin_index_after(tree):
     g = M.find_func(tree, "solve_bin_pack")
-    M.replace_stmt(g, lambda s: isinstance(s, ast.If) and M.src_is(s.test, "best_bin == -1"), M.stmts("if best_bin == -1:\n    bins.append((bin_capacity, []))\n    best_bin = len(bins)"))
+    M.replace_stmt(g, lambda s: isinstance(s, ast.If) and M.src_is(s.test, "best_bin == -1"), M.stmts("if best_bin == -1:\n    bins.append((capacity, []))\n    best_bin = len(bins)"))
 
 
 def _v_bin_fit(tree):
     g = M.find_func(tree, "solve_bin_pack")
-    M.replace_expr(g, lambda e: M.src_is(e, "size <= remaining + tol and remaining < best_remaining"), M.expr("remaining < best_remaining"))
+    M.replace_expr(g, lambda e: M.src_is(e, "size <= remaining and remaining < best_remaining"), M.expr("remaining < best_remaining"))
 
 
 def _v_bin_optimal(tree):
@@ -366,49 +363,43 @@ def _v_weightless_items_presolved(tree):
     g.body[r[0] + 1 : r[0] + 1] = M.stmts("selected.extend([i for i in range(n) if int_weights[i] == 0 and values[i] > 0])\nselected.sort()")
 
 
-def _v_allowance_for_integers_too(tree):
+def _v_bp_float_loads_with_slack(tree):
     g = M.find_func(tree, "solve_bin_pack")
-    M.replace_expr(g, lambda e: isinstance(e, ast.IfExp) and M.src_is(e.test, "integral"), M.expr("n * sys.float_info.epsilon * bin_capacity"))
+    M.replace_expr(g, lambda e: M.src_is(e, "size <= remaining and remaining < best_remaining"), M.expr("size <= remaining + n * 2.220446049250313e-16 * bin_capacity and remaining < best_remaining"))
 
 
-def _v_allowance_relative_1e6(tree):
-    g = M.find_func(tree, "solve_bin_pack")
-    M.replace_expr(g, lambda e: M.src_is(e, "sys.float_info.epsilon"), M.expr("1e-12"))
+def _v_bp_binary_reading(tree):
+    g = M.find_func(tree, "_exact")
+    g.body[-1] = M.stmts("return Fraction(x)")[0]
 
 
-def _v_no_allowance(tree):
-    g = M.find_func(tree, "solve_bin_pack")
-    M.replace_expr(g, lambda e: isinstance(e, ast.IfExp) and M.src_is(e.test, "integral"), M.expr("0.0"))
-
-
-def _v_ks_fixed_slack(tree):
+def _v_ks_recheck_with_slack(tree):
     g = M.find_func(tree, "solve_knapsack")
-    M.replace_expr(g, lambda e: isinstance(e, ast.IfExp) and M.src_is(e.test, "scale == 1.0"), M.expr("1e-09"))
+    M.replace_expr(g, lambda e: isinstance(e, ast.Compare) and M.src_is(e, "total_weight > _exact(capacity)"), M.expr("total_weight > _exact(capacity) + Fraction(1, 10 ** 9)"))
 
 
-def _v_ks_slack_for_integers(tree):
+def _v_ks_truncated_scaling(tree):
     g = M.find_func(tree, "solve_knapsack")
-    M.replace_expr(g, lambda e: isinstance(e, ast.IfExp) and M.src_is(e.test, "scale == 1.0"), M.expr("len(selected) * sys.float_info.epsilon * capacity"))
+    M.replace_expr(g, lambda e: M.src_is(e, "round(capacity * scale)"), M.expr("int(capacity * scale)"))
 
 
-def _v_ks_slack_1e6(tree):
+def _v_ks_optimal_on_inexact_data(tree):
     g = M.find_func(tree, "solve_knapsack")
-    M.replace_expr(g, lambda e: M.src_is(e, "sys.float_info.epsilon"), M.expr("1e-06"))
+    M.replace_expr(g, lambda e: M.src_is(e, "Status.OPTIMAL if exact else Status.FEASIBLE"), M.expr("Status.OPTIMAL"))
 
 
-def _t_ks_slack_n(tree):
-    g = M.find_func(tree, "solve_knapsack")
-    M.replace_expr(g, lambda e: M.src_is(e, "len(selected) * sys.float_info.epsilon * capacity"), M.expr("n * sys.float_info.epsilon * capacity"))
+def _v_ks_fallback_float_room(tree):
+    g = M.find_func(tree, "_greedy_fallback")
+    M.replace_stmt(g, lambda s: M.src_is(s, "remaining = _exact(capacity)"), M.stmts("remaining = capacity"))
 
 
 VARIANTS = [
-    M.Variant("knapsack re-check with a fixed slack of 1e-9 (original defect: weight 10.0000000005 accepted for capacity 10)", KN, _v_ks_fixed_slack, "C16-O1"),
-    M.Variant("knapsack re-check slack applied to integral data as well", KN, _v_ks_slack_for_integers, "C16-O1"),
-    M.Variant("knapsack re-check slack of 1e-6 of the capacity per item", KN, _v_ks_slack_1e6, "C16-O1"),
-    M.Variant("twin: knapsack re-check slack scaled by the number of items instead of the number selected", KN, _t_ks_slack_n, None),
-    M.Variant("rounding allowance applied to integral data as well (overfill of a unit from capacity 1e12)", BP, _v_allowance_for_integers_too, "C16-O3"),
-    M.Variant("rounding allowance of n * 1e-12 of the capacity (the first repair: 0.5 and 0.5000000000001 share a bin of 1.0)", BP, _v_allowance_relative_1e6, "C16-O3"),
-    M.Variant("no rounding allowance: [0.3, 0.3, 0.3, 0.1] needs two bins of 1.0 (original defect)", BP, _v_no_allowance, "C16-O3"),
+    M.Variant("bin packing fit test with a float slack of n ulps of the capacity (repair 60 as written: ledger row 67)", BP, _v_bp_float_loads_with_slack, "C16-O3"),
+    M.Variant("`_exact` reads the binary expansion of a float: ten items of 0.1 no longer fit a bin of 1.0", BP, _v_bp_binary_reading, "C16-O3"),
+    M.Variant("knapsack re-check with a slack of 1e-9 again (ledger rows 62, 68)", KN, _v_ks_recheck_with_slack, "C16-O1"),
+    M.Variant("knapsack capacity truncated instead of rounded: 2.01 becomes 2009 cells (original defect, ledger row 68)", KN, _v_ks_truncated_scaling, "C16-O1"),
+    M.Variant("knapsack labels OPTIMAL whatever the scaling did to the data (original defect, ledger row 68)", KN, _v_ks_optimal_on_inexact_data, "C16-O1"),
+    M.Variant("knapsack fallback keeps its remaining room as a float", KN, _v_ks_fallback_float_room, "C16-O1"),
     M.Variant("weightless items settled outside the DP by the sign of the raw value (seed C16-O)", KN, _v_weightless_items_presolved, "C16-O2"),
 
     M.Variant("zero-capacity shortcut publishes OPTIMAL without looking at items (original defect)", KN, _v_zero_capacity_shortcut, "C16-O1"),
